@@ -6,9 +6,18 @@ compat invariant, directly on the implementation. Every header is written as an 
 its fields (EVLR list None / empty / shorter / longer than the counter, attached LasData with points, extra dimensions, compressed flag,
 stale offset, read from a file / deep-copied, ensure_same_size) and the written bytes are parsed here, with struct at the ASPRS offsets,
 and compared field by field with the attribute's own value; the headers that LasWriter / LasAppender / LasData.write put into files are
-judged the same way."""
+judged the same way.
+Round 5 (Model/HeaderAttr.v, Model/HeaderSession.v): (a) EVERY public attribute of a header object - enumerated by introspection: data
+descriptors of the class, instance attributes, plain class attributes, the old laspy alias names - is assigned every kind of value
+(Version objects and look-alikes, point formats, ints, strings, None ...) from every legal pair, alone and inside API histories: the pair
+stays compatible, a refused assignment changes nothing, what write_to serialises afterwards is a compatible pair; (b) the header OWNED
+by an open LasWriter / LasAppender is edited between open and close (vlrs assigned / appended / popped / payload grown, extra header and
+padding bytes, extra dimensions, point_format, version, strings, plain fields, alone and combined): close() keeps the offset or refuses,
+and the point records already in the file are intact (raw bytes at the original offset, and re-read through laspy)."""
 import copy
+import inspect
 import io
+import re
 import struct
 from datetime import date, timedelta
 
@@ -16,6 +25,7 @@ import numpy as np
 
 from harness import common, lasio
 
+DRIVER = "c07"
 ASSUMPTIONS = ["struct.pack('<d') is the identity on 64-bit patterns (exercised with NaN payloads, +-inf, -0.0, subnormals)",
                "ASCII strings; creation_date is a datetime.date"]
 
@@ -291,9 +301,17 @@ def api_ops(ctx):
         # where header and record agree
         for start in [(1, 2, 3), (1, 4, 6), (1, 1, 0), (1, 3, 5)]:
             seqs.append((start, [s]))
+    attrs = public_attributes()
+    vals = assign_values()
+    usable = [i for i, v in enumerate(vals) if v[2]]
+
+    def xop():
+        name = rng.choice(sorted(attrs))
+        # version / point_format keep holding what was assigned: only real Version / PointFormat objects inside a longer history
+        return ("X", name, rng.choice(usable) if attrs[name] in "vf" or rng.random() < 0.5 else rng.randrange(len(vals)))
     for _ in range(ctx.n(300, 3000)):
         start = rng.choice([(1, 2, 3), (1, 4, 6), (1, 1, 1), (1, 3, 4), (1, 4, 10)])
-        seqs.append((start, [rng.choice(singles) for _ in range(rng.randrange(2, 8))]))
+        seqs.append((start, [xop() if rng.random() < 0.35 else rng.choice(singles) for _ in range(rng.randrange(2, 8))]))
     return seqs
 
 
@@ -312,7 +330,15 @@ def op_tok(op):
         return f"B{vt(op[1])}:{op[2]}"
     if op[0] == "C":
         return f"C{ft(op[1])}:{vt(op[2])}"
+    if op[0] == "X":
+        return f"X[header.{op[1]} = {assign_values()[op[2]][0]}]"
     return "W"
+
+
+def model_op_tok(op):
+    if op[0] == "X":
+        return f"X{public_attributes().get(op[1], 'p')}:{value_tok(assign_values()[op[2]][1]())}"
+    return op_tok(op)
 
 
 def run_api(start, ops):
@@ -323,6 +349,10 @@ def run_api(start, ops):
     outs = []
     for op in ops:
         before = (las.header.version.major, las.header.version.minor, las.header.point_format.id)
+        if op[0] == "X":
+            raised, st = assign(las.header, op[1], assign_values()[op[2]][1](), restore=public_attributes().get(op[1], "p") in "pr")
+            outs.append(("ok", st) if raised is None else ("err", common.exc_kind(raised), st, st == before))
+            continue
         try:
             if op[0] == "N":
                 kw = {}
@@ -369,6 +399,395 @@ def dates(ctx):
         d = date(y, 1, 1) + timedelta(ctx.rng.randrange(365))
         out.append((d.year, d.month, d.day))
     return out
+
+
+# ---------------------------------------------------------------------------------
+# (a) every public attribute of a header object
+# ---------------------------------------------------------------------------------
+LEGAL = {(1, 1): (0, 1), (1, 2): (0, 1, 2, 3), (1, 3): tuple(range(6)), (1, 4): tuple(range(11))}     # typed in from the LAS specifications
+
+
+def legal_pair(st):
+    return st[2] in LEGAL.get((st[0], st[1]), ())
+
+
+def public_attributes():
+    """name -> class of what an assignment does, found by introspection of the class and of a fresh instance:
+    'v' version, 'f' point_format, 'r' property without setter, 'p' everything else that can be assigned (property with a setter,
+    instance attribute, plain class attribute, old laspy alias). Methods and names starting with '_' are not attributes to assign."""
+    import laspy
+    cls = laspy.LasHeader
+    out = {}
+    for name in dir(cls):
+        if name.startswith("_"):
+            continue
+        obj = inspect.getattr_static(cls, name)
+        if isinstance(obj, property):
+            out[name] = "r" if obj.fset is None else "p"
+        elif inspect.isdatadescriptor(obj):
+            out[name] = "p"
+        elif callable(obj) or isinstance(obj, (classmethod, staticmethod)):
+            continue
+        else:
+            out[name] = "p"
+    for name in vars(cls()):
+        if not name.startswith("_"):
+            out.setdefault(name, "p")
+    for name in getattr(cls, "_OLD_LASPY_NAMES", {}):
+        if not name.startswith("_"):
+            out.setdefault(name, "p")
+    if "version" in out:
+        out["version"] = "v"
+    if "point_format" in out:
+        out["point_format"] = "f"
+    return out
+
+
+def assign_values():
+    """(label, factory, usable inside a longer history) - what is assigned; built afresh for every assignment"""
+    import laspy
+    from laspy.header import Version
+    vals = []
+    for v in [(1, 0), (1, 1), (1, 2), (1, 3), (1, 4), (1, 5), (2, 0)]:
+        vals.append((f"Version{v}", (lambda v=v: Version(*v)), True))
+    for t in ["1.1", "1.2", "1.3", "1.4", "1.5", "abc", ""]:
+        vals.append((f"str {t!r}", (lambda t=t: t), False))
+    vals.append(("float 1.2", lambda: 1.2, False))
+    vals.append(("tuple (1, 1)", lambda: (1, 1), False))
+    for f in range(11):
+        vals.append((f"PointFormat({f})", (lambda f=f: laspy.PointFormat(f)), True))
+    for i in [0, 1, 2, 3, 4, 5, 6, 10, 11, 64, 255, -1]:
+        vals.append((f"int {i}", (lambda i=i: i), False))
+    vals.append(("numpy uint8 2", lambda: np.uint8(2), False))
+    vals.append(("None", lambda: None, False))
+    vals.append(("True", lambda: True, False))
+    vals.append(("bytes", lambda: b"xy", False))
+    vals.append(("array of 3 doubles", lambda: np.array([1.0, 2.0, 3.0]), False))
+    vals.append(("date", lambda: date(2020, 2, 29), False))
+    vals.append(("empty VLRList", lambda: __import__("laspy").vlrs.vlrlist.VLRList(), False))
+    return vals
+
+
+def value_tok(x):
+    """the value as the setters see it: str(x) is a version M.m | x has an integer id | anything else"""
+    m = re.fullmatch(r"(\d+)\.(\d+)", str(x)) if not hasattr(x, "id") else None
+    if m:
+        return f"v{int(m.group(1))}.{int(m.group(2))}"
+    if isinstance(getattr(x, "id", None), int):
+        return f"f{x.id}"
+    return "o"
+
+
+def pair_of(h):
+    """(major, minor, format id) of a header object, also when the version it holds is a look-alike (a string ...)"""
+    v = h.version
+    try:
+        vv = (int(v.major), int(v.minor))
+    except AttributeError:
+        m = re.fullmatch(r"(\d+)\.(\d+)", str(v))
+        vv = (int(m.group(1)), int(m.group(2))) if m else (-1, -1)
+    return vv + (int(h.point_format.id),)
+
+
+_MISSING = object()
+
+
+def assign(h, name, val, restore):
+    """header.<name> = val. Returns (raised or None, pair right after). restore: put the attribute back (an attribute that is not
+    version / point_format must not be left holding garbage inside a longer history; the pair was observed before)."""
+    had = name in vars(h)
+    try:
+        old = getattr(h, name)
+    except Exception:
+        old = _MISSING
+    raised = None
+    try:
+        setattr(h, name, val)
+    except Exception as ex:  # noqa
+        raised = ex
+    after = pair_of(h)
+    if restore and raised is None:
+        try:
+            if had or isinstance(inspect.getattr_static(type(h), name, None), property) or name in getattr(type(h), "_OLD_LASPY_NAMES", {}):
+                if old is not _MISSING:
+                    setattr(h, name, old)
+            else:
+                delattr(h, name)
+        except Exception:  # noqa
+            pass
+    return raised, after
+
+
+def written_pair(h):
+    """what write_to serialises: (major, minor, format id) from the bytes, 'refused' (LaspyException), or None (cannot be written
+    for another reason: a field now holds a value that is no field value)"""
+    import laspy
+    try:
+        raw = write_header(h)
+    except laspy.errors.LaspyException:
+        return "refused"
+    except Exception:  # noqa
+        return None
+    if raw[:4] != b"LASF" or len(raw) != layout_size(h):
+        return None          # not a header block: an attribute that is a field now holds something that is not a value of that field
+    return (raw[24], raw[25], raw[104] & 0x3F)
+
+
+_SWEEP = None
+
+
+def assignment_sweep(ctx):
+    """every attribute x every value from legal start pairs, one fresh header each"""
+    global _SWEEP
+    if _SWEEP is not None:
+        return _SWEEP
+    import laspy
+    attrs = public_attributes()
+    vals = assign_values()
+    pairs = [((1, int(v[2])), f) for v in lasio.VERSIONS for f in lasio.COMPAT[v]]
+    if not ctx.thorough():
+        keep = [((1, 1), 1), ((1, 2), 3), ((1, 3), 5), ((1, 4), 6), ((1, 4), 10), ((1, 4), 0)]
+        pairs = keep + [ctx.rng.choice(pairs) for _ in range(2)]
+    out = []
+    for (v, f) in pairs:
+        for name, cl in sorted(attrs.items()):
+            for label, make, _ in vals:
+                h = laspy.LasHeader(version=f"{v[0]}.{v[1]}", point_format=f)
+                x = make()
+                before = pair_of(h)
+                raised, after = assign(h, name, x, restore=False)
+                out.append({"start": before, "attr": name, "class": cl, "value": label, "tok": value_tok(x), "raised": raised, "after": after,
+                            "written": written_pair(h) if raised is None else "not-tried"})
+    _SWEEP = out
+    return out
+
+
+# ---------------------------------------------------------------------------------
+# (b) the header owned by an open writer / appender, edited between open and close
+# ---------------------------------------------------------------------------------
+def _e_vlrs_assign_longer(h, rng):
+    h.vlrs = list(h.vlrs) + [lasio.rand_vlr(rng, 80)]
+
+
+def _e_vlrs_assign_new(h, rng):
+    h.vlrs = [lasio.rand_vlr(rng, 200) for _ in range(rng.choice([1, 2]))]
+
+
+def _e_vlrs_assign_shorter(h, rng):
+    h.vlrs = list(h.vlrs)[:-1]
+
+
+def _e_vlrs_assign_same(h, rng):
+    h.vlrs = list(h.vlrs)
+
+
+def _e_vlrs_assign_same_size(h, rng):
+    import laspy
+    vl = list(h.vlrs)
+    user = [i for i, v in enumerate(vl) if type(v) is laspy.VLR]
+    if user:
+        i = rng.choice(user)
+        vl[i] = laspy.VLR(user_id="other", record_id=9, description="same size", record_data=bytes(len(vl[i].record_data_bytes())))
+    h.vlrs = vl
+
+
+def _e_vlrs_append(h, rng):
+    h.vlrs.append(lasio.rand_vlr(rng, 80))
+
+
+def _e_vlrs_pop(h, rng):
+    h.vlrs.pop()
+
+
+def _e_vlr_payload_grows(h, rng):
+    import laspy
+    user = [v for v in h.vlrs if type(v) is laspy.VLR]
+    rng.choice(user).record_data += b"\x01" * rng.choice([1, 7])
+
+
+def _e_extra_header_longer(h, rng):
+    h.extra_header_bytes = bytes(h.extra_header_bytes) + bytes(rng.randrange(256) for _ in range(rng.choice([1, 2, 60])))
+
+
+def _e_extra_header_shorter(h, rng):
+    h.extra_header_bytes = bytes(h.extra_header_bytes)[:-1]
+
+
+def _e_extra_header_same_length(h, rng):
+    h.extra_header_bytes = bytes(rng.randrange(256) for _ in range(len(h.extra_header_bytes)))
+
+
+def _e_pad_longer(h, rng):
+    h.extra_vlr_bytes = bytes(h.extra_vlr_bytes) + b"\0" * rng.choice([1, 2, 54])
+
+
+def _e_pad_shorter(h, rng):
+    h.extra_vlr_bytes = bytes(h.extra_vlr_bytes)[:-1]
+
+
+def _e_pad_to_header(h, rng):
+    # the same total: what is taken from the padding goes to the extra header bytes
+    k = min(len(h.extra_vlr_bytes), rng.choice([1, 2, 5]))
+    h.extra_vlr_bytes = bytes(h.extra_vlr_bytes)[k:]
+    h.extra_header_bytes = bytes(h.extra_header_bytes) + b"\xEE" * k
+
+
+def _e_add_extra_dims(h, rng):
+    import laspy
+    h.add_extra_dims([laspy.ExtraBytesParams(f"late{len(list(h.point_format.extra_dimension_names))}", rng.choice(["u1", "f8", "3i2"]))])
+
+
+def _e_remove_extra_dims(h, rng):
+    h.remove_extra_dims(list(h.point_format.extra_dimension_names))
+
+
+def _e_point_format(h, rng):
+    import laspy
+    ids = [f for f in LEGAL[(h.version.major, h.version.minor)] if f != h.point_format.id]
+    h.point_format = laspy.PointFormat(rng.choice(ids))
+
+
+def _e_point_format_same(h, rng):
+    import laspy
+    h.point_format = laspy.PointFormat(h.point_format.id)       # the extra dimensions go: the ExtraBytes VLR is resynchronised
+
+
+def _e_version(h, rng):
+    from laspy.header import Version
+    h.version = Version(1, rng.choice([m for m in (1, 2, 3, 4) if m != h.version.minor]))
+
+
+def _e_version_and_format(h, rng):
+    import laspy
+    from laspy.header import Version
+    h.set_version_and_point_format(Version(1, 4), laspy.PointFormat(rng.choice([6, 7, h.point_format.id])))
+
+
+def _e_strings(h, rng):
+    h.system_identifier = lasio.rand_ascii(rng, rng.choice([0, 1, 31, 32]))
+    h.generating_software = lasio.rand_ascii(rng, rng.choice([0, 1, 31, 32]))
+
+
+def _e_fields(h, rng):
+    import uuid
+    h.file_source_id = rng.randrange(65536)
+    h.uuid = uuid.UUID(bytes=bytes(rng.randrange(256) for _ in range(16)))
+    h.creation_date = date(rng.randrange(1, 10000), 12, 31)
+    h.global_encoding.value = rng.randrange(65536)
+    h.start_of_waveform_data_packet_record = rng.getrandbits(64)
+
+
+def _e_evlrs(h, rng):
+    from laspy.vlrs.vlrlist import VLRList
+    h.evlrs = VLRList([lasio.rand_vlr(rng, 30)])
+
+
+def _e_none(h, rng):
+    pass
+
+
+EDITS = [_e_vlrs_assign_longer, _e_vlrs_assign_new, _e_vlrs_assign_shorter, _e_vlrs_assign_same, _e_vlrs_assign_same_size, _e_vlrs_append,
+         _e_vlrs_pop, _e_vlr_payload_grows, _e_extra_header_longer, _e_extra_header_shorter, _e_extra_header_same_length, _e_pad_longer,
+         _e_pad_shorter, _e_pad_to_header, _e_add_extra_dims, _e_remove_extra_dims, _e_point_format, _e_point_format_same, _e_version,
+         _e_version_and_format, _e_strings, _e_fields, _e_evlrs, _e_none]
+OPENERS = ["LasWriter()", "open(mode='w')", "LasAppender()", "open(mode='a')", "open(mode='a')+append"]
+
+
+def layout_size(h):
+    """bytes the header + VLR block of this object takes, computed here: version's size + extra header bytes + VLRs + padding"""
+    return SIZES.get(str(h.version), 0) + len(h.extra_header_bytes) + sum(54 + len(v.record_data_bytes()) for v in h.vlrs) + len(h.extra_vlr_bytes)
+
+
+_SESSIONS = None
+
+
+def rewrite_sessions(ctx):
+    """open a writer / an appender, store points, edit ITS header object through the public API, close. Returns one record per session."""
+    global _SESSIONS
+    if _SESSIONS is not None:
+        return _SESSIONS
+    import laspy
+    from laspy.vlrs.vlrlist import VLRList
+    rng = ctx.rng
+    out = []
+    for trial in range(ctx.n(260, 3000)):
+        ver = rng.choice(lasio.VERSIONS)
+        h = lasio.rand_header(rng, version=ver, nvlrs=rng.choice([0, 1, 2, 3]))
+        if rng.random() < 0.3:
+            lasio.add_extra_dims(rng, h, rng.choice([1, 2]))
+        if rng.random() < 0.5 and not h.extra_vlr_bytes:
+            h.extra_vlr_bytes = b"\x07" * 5
+        pts = lasio.rand_points(rng, h, rng.choice([1, 6, 25]), pattern="random")
+        opener = rng.choice(OPENERS)
+        edits = [rng.choice(EDITS) for _ in range(rng.choice([1, 1, 1, 2, 3]))]
+        rec = {"opener": opener, "version": ver, "format": h.point_format.id, "points": len(pts), "edits": [e.__name__[3:] for e in edits], "trial": trial}
+        try:
+            bio = io.BytesIO()
+            if opener in ("LasWriter()", "open(mode='w')"):
+                obj = laspy.LasWriter(bio, h, closefd=False) if opener == "LasWriter()" else laspy.open(bio, mode="w", header=h, closefd=False)
+                k = rng.randrange(len(pts) + 1)
+                if k:
+                    obj.write_points(pts[:k])
+                if k < len(pts):
+                    obj.write_points(pts[k:])
+                stored = lasio.rec_bytes(pts)
+            else:
+                evl = VLRList([lasio.rand_vlr(rng, 40)]) if ver == "1.4" and rng.random() < 0.5 else VLRList()
+                bio = io.BytesIO(lasio.write_las(h, pts, evl))
+                obj = laspy.lasappender.LasAppender(bio, closefd=False) if opener == "LasAppender()" else laspy.open(bio, mode="a", closefd=False)
+                stored = lasio.rec_bytes(pts)
+                if opener.endswith("+append"):
+                    more = lasio.rand_points(rng, obj.header, rng.choice([1, 4]), pattern="random")
+                    obj.append_points(more)
+                    stored += lasio.rec_bytes(more)
+        except Exception as ex:  # noqa
+            rec["setup_error"] = repr(ex)
+            out.append(rec)
+            continue
+        own = obj.header
+        raw0 = bio.getvalue()
+        off0 = int.from_bytes(raw0[96:100], "little")
+        rec["offset_first_written"] = off0
+        rec["points_in_place_before_edit"] = raw0[off0:off0 + len(stored)] == stored
+        fmt0 = lasio.format_key(own.point_format)
+        rec["edit_errors"] = []
+        for e in edits:
+            try:
+                e(own, rng)
+            except Exception as ex:  # noqa
+                rec["edit_errors"].append(f"{e.__name__[3:]}: {type(ex).__name__}")
+        rec["size_after_edit"] = layout_size(own)
+        rec["format_kept"] = lasio.format_key(own.point_format) == fmt0
+        try:
+            d = lasio.header_assoc(own)
+            d["offset_to_point_data"] = off0          # what the object remembers from the first write, as the model has it
+            rec["model_cmd"] = f"enc_header {lasio.assoc_tok(d)} {lasio.vlrs_tok([lasio.vlr_tuple(v) for v in own.vlrs])} T"
+        except Exception as ex:  # noqa
+            rec["model_cmd"] = None
+        raised = None
+        try:
+            obj.close()
+        except Exception as ex:  # noqa
+            raised = ex
+        raw1 = bio.getvalue()
+        rec["raised"] = raised
+        rec["offset_after_close"] = int.from_bytes(raw1[96:100], "little")
+        rec["points_intact"] = raw1[off0:off0 + len(stored)] == stored
+        rec["first_damaged_byte"] = next((off0 + i for i in range(len(stored)) if off0 + i >= len(raw1) or raw1[off0 + i] != stored[i]), None)
+        rec["reread"] = None
+        if raised is None and rec["format_kept"]:
+            try:
+                back = laspy.read(io.BytesIO(raw1))
+                rec["reread"] = "same" if lasio.rec_bytes(back.points) == stored else f"{len(back.points)} other records"
+            except Exception as ex:  # noqa
+                rec["reread"] = "raises " + repr(ex)[:120]
+        out.append(rec)
+    _SESSIONS = out
+    return out
+
+
+def session_input(r):
+    return {k: r[k] for k in ("opener", "version", "format", "points", "edits", "trial", "offset_first_written", "size_after_edit") if k in r}
 
 
 def correspond(ctx):
@@ -419,7 +838,7 @@ def correspond(ctx):
                 dis.append({"kind": "header read_from fields", "input": {"fields": bad[:5]}, "model": str({k: md.get(k) for k in bad[:3]}), "impl": str({k: hd[k] for k in bad[:3]})})
     # API histories
     seqs = api_ops(ctx)
-    outs = common.run_model([f"hrun {s[0]} {s[1]} {s[2]} " + " ".join(op_tok(o) for o in ops) for s, ops in seqs])
+    outs = common.run_model([f"hrun2 {s[0]} {s[1]} {s[2]} " + " ".join(model_op_tok(o) for o in ops) for s, ops in seqs], name=DRIVER)
     for (s, ops), mo in zip(seqs, outs):
         im = run_api(s, ops)
         ctx.traces += 1
@@ -428,14 +847,44 @@ def correspond(ctx):
             ctx.count("api:" + o[0])
         toks = mo.split(" ")
         for j, (t, r) in enumerate(zip(toks, im)):
-            if r[0] == "ok":
-                e = f"ok:{r[1][0]}.{r[1][1]}:{r[1][2]}"
-                good = t == e
-            else:
-                good = t.startswith("err")
+            st = r[1] if r[0] == "ok" else r[2]
+            good = t == f"{r[0]}:{st[0]}.{st[1]}:{st[2]}"
+            if ops[j][0] == "X" and public_attributes().get(ops[j][1], "p") == "p":
+                # an attribute that is neither version nor point_format: its own setter may refuse a value that is no value of
+                # the field; the model speaks about the pair only
+                good = t.split(":", 1)[1] == f"{st[0]}.{st[1]}:{st[2]}"
             if not good:
                 dis.append({"kind": f"API op {op_tok(ops[j])[0]}", "input": {"start": s, "ops": [op_tok(o) for o in ops], "at": j}, "model": t, "impl": str(r)})
                 break
+    # every public attribute x every value, from legal pairs
+    sweep = assignment_sweep(ctx)
+    uniq = sorted({(r["start"], r["class"], r["tok"]) for r in sweep})
+    mo = dict(zip(uniq, common.run_model([f"hrun2 {st[0]} {st[1]} {st[2]} X{cl}:{tok}" for st, cl, tok in uniq], name=DRIVER)))
+    ctx.extra["public_attributes"] = public_attributes()
+    for r in sweep:
+        ctx.traces += 1
+        ctx.case(("assign", r["start"], r["attr"], r["value"]), nontrivial=True,
+                 sample={"start": r["start"], "assignment": f"header.{r['attr']} = {r['value']}", "model": mo[(r["start"], r["class"], r["tok"])]})
+        ctx.count("assign:" + {"v": "version", "f": "point_format", "r": "read-only property", "p": "other attribute"}[r["class"]] +
+                  (":refused" if r["raised"] is not None else ":stored"))
+        st = r["after"]
+        e = f"{'ok' if r['raised'] is None else 'err'}:{st[0]}.{st[1]}:{st[2]}"
+        if (mo[(r["start"], r["class"], r["tok"])].split(":", 1)[1] != e.split(":", 1)[1]) if r["class"] == "p" else (mo[(r["start"], r["class"], r["tok"])] != e):
+            dis.append({"kind": f"assignment to header.{r['attr']}", "input": {"start": r["start"], "attribute": r["attr"], "value": r["value"]},
+                        "model": mo[(r["start"], r["class"], r["tok"])], "impl": e + (f" ({r['raised']!r})"[:120] if r["raised"] is not None else "")})
+    # the header of an open writer / appender edited between open and close: the decision of close()
+    sess = [r for r in rewrite_sessions(ctx) if r.get("model_cmd")]
+    for r, o in zip(sess, common.run_model([r["model_cmd"] for r in sess])):
+        ctx.traces += 1
+        ctx.case(("session", r["trial"], r["opener"], tuple(r["edits"])), nontrivial=True,
+                 sample={"session": session_input(r), "model": o[:40], "impl": "refused" if r["raised"] is not None else "rewritten"})
+        ctx.count("session:" + r["opener"])
+        for e in r["edits"]:
+            ctx.count("edit:" + e)
+        ctx.count("close:" + ("rewritten" if r["raised"] is None else "refused"))
+        if o.startswith("ok") != (r["raised"] is None):
+            dis.append({"kind": "close() of an edited header", "input": session_input(r), "model": o[:60],
+                        "impl": "rewritten" if r["raised"] is None else repr(r["raised"])[:120]})
     # dates
     ds = dates(ctx)
     outs = common.run_model([f"yday {y} {m} {d}" for y, m, d in ds])
@@ -516,40 +965,41 @@ def search(ctx, seeds):
             if d2.get(k) != v:
                 add(f"write_to changed the attribute {k.split('[')[0]}", dict(inp, field=k), f"{v!r} -> {d2.get(k)!r}")
     file_api(ctx, add)
-    # in-place rewrite: the header changes size between open and close
-    for trial in range(ctx.n(60, 400)):
-        rng = ctx.rng
-        h = lasio.rand_header(rng, nvlrs=rng.choice([1, 2, 3]))
-        if not h.extra_vlr_bytes:
-            h.extra_vlr_bytes = b"\x07" * 5
-        pts = lasio.rand_points(rng, h, 6, pattern="random")
-        bio = io.BytesIO()
-        w = laspy.LasWriter(bio, h, closefd=False)
-        w.write_points(pts)
-        off0 = int.from_bytes(bio.getvalue()[96:100], "little")
-        how = rng.choice(["pop", "shorten-pad", "append", "grow-pad", "none"])
-        if how == "pop":
-            w.header.vlrs.pop()
-        elif how == "shorten-pad":
-            w.header.extra_vlr_bytes = w.header.extra_vlr_bytes[:-1]
-        elif how == "append":
-            w.header.vlrs.append(lasio.rand_vlr(rng))
-        elif how == "grow-pad":
-            w.header.extra_vlr_bytes = w.header.extra_vlr_bytes + b"\0\0"
-        raised = None
-        try:
-            w.close()
-        except Exception as ex:
-            raised = ex
-        raw = bio.getvalue()
-        off1 = int.from_bytes(raw[96:100], "little")
-        inp = {"version": str(h.version), "change": how}
-        if how != "none" and raised is None:
-            add("in-place rewrite of a resized header accepted", inp, f"offset field {off0} -> {off1}, no exception")
-        if off1 != off0:
-            add("in-place rewrite changed offset_to_point_data", inp, f"{off0} -> {off1}")
-        if raw[off0:off0 + len(pts) * h.point_format.size] != lasio.rec_bytes(pts):
-            add("in-place rewrite moved or damaged the points", inp, "")
+    # in-place rewrite: the writer's / appender's own header edited between open and close
+    for r in rewrite_sessions(ctx):
+        inp = session_input(r)
+        if "setup_error" in r:
+            add("rewrite session: opening / storing points raises", inp, r["setup_error"])
+            continue
+        off0 = r["offset_first_written"]
+        if not r["points_in_place_before_edit"]:
+            add("points are not at the offset first written", inp, "")
+        if r["offset_after_close"] != off0:
+            add("in-place rewrite changed offset_to_point_data", inp, f"{off0} -> {r['offset_after_close']}" + (", no exception" if r["raised"] is None else f", {r['raised']!r}"))
+        if not r["points_intact"]:
+            add("in-place rewrite moved or damaged the points", inp,
+                f"the point records stored at byte {off0} were overwritten (first damaged byte {r['first_damaged_byte']}); the edited header + VLR block takes "
+                f"{r['size_after_edit']} bytes; close() " + ("did not raise" if r["raised"] is None else f"raised {r['raised']!r}"))
+        if r["size_after_edit"] != off0 and r["raised"] is None:
+            add("in-place rewrite of a resized header accepted", inp, f"first written with {off0} bytes, now {r['size_after_edit']}, no exception")
+        if r["size_after_edit"] == off0 and r["raised"] is not None:
+            add("in-place rewrite of a same-size header fails", inp, repr(r["raised"]))
+        if r["reread"] not in (None, "same"):
+            add("rewritten file does not give back the stored points", inp, r["reread"])
+    # every public attribute x every value: the pair after the assignment, and what is serialised afterwards
+    for r in assignment_sweep(ctx):
+        inp = {"start": r["start"], "statement": f"header.{r['attr']} = {r['value']}", "attribute_found_by_introspection_as":
+               {"v": "version", "f": "point_format", "r": "property without setter", "p": "assignable attribute / property"}[r["class"]]}
+        if not legal_pair(r["after"]):
+            add(f"incompatible pair produced by assigning header.{r['attr']}", inp,
+                f"header is {r['after'][0]}.{r['after'][1]} / format {r['after'][2]} afterwards" + (f" (raised {r['raised']!r})" if r["raised"] is not None else ""))
+        if r["raised"] is not None and r["after"] != r["start"]:
+            add(f"failed assignment to header.{r['attr']} changed the header", inp, f"{r['start']} -> {r['after']}, raised {r['raised']!r}")
+        if isinstance(r["written"], tuple):
+            if not legal_pair(r["written"]):
+                add(f"incompatible pair written after assigning header.{r['attr']}", inp, f"write_to serialised {r['written'][0]}.{r['written'][1]} / format {r['written'][2]}")
+            elif r["written"] != r["after"]:
+                add("written pair differs from the header's pair", inp, f"header {r['after']}, bytes {r['written']}")
     # a header READ from a file that announces an illegal (version, format) pair (reading stays lenient) must be refused by the writer
     for ver_minor, fmt in [(1, 2), (1, 3), (2, 5), (1, 6), (3, 7), (2, 10)]:
         good = laspy.LasHeader(version="1.4" if fmt >= 6 else "1.3" if fmt >= 4 else "1.2", point_format=fmt)
